@@ -398,7 +398,7 @@ class SchedSuite(SyncSuite):
             scheds = []
             for _ in range(self.K[tier]):
                 scheds.append({"cap": rng.choice([0, 0, 1, 4, 16, 64]), "delay": rng.choice([0, 0, 5, 50]), "window": rng.choice([0, 2, 10, 50]),
-                               "seed": rng.randrange(1 << 30), "procs": rng.choice([1, 2, 4, 16]),
+                               "seed": rng.randrange(1 << 30), "procs": rng.choice([1, 2, 4, 16]), "linger": 0 if wide else rng.choice([0, 0, 0, 300]),
                                "readsizes": [rng.choice([0, 1000, 32768, 5000]) for _ in range(rng.randint(1, 3))]})
             ops.append({"op": "sync", "src": {"kind": "mem", "tree": tree}, "dst": dst, "opt": {"notify": True, "cap": 4, "seed": 1},
                         "schedules": scheds})
